@@ -272,6 +272,7 @@ def run(ctx):
                  "list pop / item update, comprehensions, int-or-None truthiness, np.flatnonzero / np.array of "
                  "tuples-or-None / np.flip / .T / np.lexsort as a stable sort: coq/theories/PyRoutes.v; vocabulary "
                  "PySeqRoutes.v)")
+    from props import pysem; pysem.run(ctx, pysem.GROUPS_FOR.get(ctx.pid, ()))
     rng = ctx.rng
     n_cases = 220 if ctx.quick else 2500
     limit_n = 14 if ctx.quick else 16
